@@ -374,3 +374,8 @@ def witness_search(tier, seed):
             if got != exp:
                 return dict(input=dict(grouped=[[repr(item)], [repr(inner)]], option=str(opt)), detail=f"got {got!r}; the statement prescribes {exp!r}")
     return None
+
+
+# supplier units (see props/suppliers.py): the heap order is Note's ordering
+from props import suppliers as _S   # noqa: E402
+UNITS = _S.extend(UNITS, [u for u in _S.note_readers() if u.name.startswith("Note.") or u.name == "lemma:ORDER"])
